@@ -9,6 +9,8 @@ CHECKS = {
          "registry layout enumerated (1-3 hyper-parameters, 1-2 optimizers, shared optimizer), values symbolic; torch.optim constructor contract; floats as reals; DeepSpeed branch excluded."),
  "C14": ("proof", "DQN._get_action proved on a generic batch row for every mask with a legal action, every epsilon and EVERY random draw: the returned index is in range and unmasked; in the policy branch it is the best legal action. DDPG.get_action and TD3.get_action: the returned action is inside [low, high] component-wise for training and evaluation and every noise value.",
          "finite network outputs, 0/1 masks, low<=high; torch rand_like/argmax/masked_fill/where and numpy clip contracts; row-generic execution. CQN/Rainbow/bandits/PPO/multi-agent only through the native adapters (bounded)."),
+ "C15": ("proof", "maybe_add_batch_dim and get_vect_dim proved in shape mode for every space rank 0..3, numpy and torch inputs, every input form (unbatched, batched, batch-of-one, (step, env, ...)) with symbolic dimension values: result shape is (B_flat, *space_shape), wrong ranks raise ValueError, the number of vectorised environments is the leading dimension exactly when the input has one. Value maps of preprocess_observation (one-hot, image scaling, row-wise consistency) are a bounded native stand-in.",
+         "shape model of expand_dims/unsqueeze/reshape(-1,*s); gymnasium space attributes; element maps, Dict/Tuple and multi-agent assembly only bounded (native)."),
  "C17": ("proof", "The GAE loops of PPO.learn and IPPO._learn_individual (regions of the real functions) proved equal to the recursion of the statement for every rollout length, number of envs, placement of done flags, gamma, lambda (loop invariant against a recursively defined spec function); returns = A + V; no-leak lemma across an episode start by induction; flatten_experiences / get_experiences_samples apply one index map / one index vector to all six tensors; known finding: IPPO row misalignment (native, bounded).",
          "A-REAL; tensor model (element-wise ops, row indexing, transpose, row-major reshape as an uninterpreted layout); critic output free; IPPO row alignment and PPO end-to-end rows only bounded (native)."),
  "C18": ("proof", "The projection region of RainbowDQN._dqn_loss (real statements, executed on a generic tensor element) proved for every number of atoms, support range, reward, done flag, gamma and source probability: indices 0 <= L <= u <= N-1, weights >= 0, w_L + w_u = p (mass), w_L*L + w_u*u = p*b and its support-unit form (mean), b*dz+v_min = clip(r + gamma(1-d)z); AST wiring obligations: the two index_add_ scatter exactly those weights at L+offset / u+offset, the loss is -(proj*log q(a)).sum(1), the target distribution comes from the target net at the online greedy action.",
